@@ -27,6 +27,7 @@ META = {
 }
 META["explanation"] += '  parsed/*: the third read name holds a solver-chosen character (none, 0x1f, NBSP, VT, |, %) and the TSV also lists the name cut at that character with another haplotype.'
 META["explanation"] += "  One read name starts with '@'; parsed/text/no-final-newline."
+META["explanation"] += "  One parsed record carries an optional field with '%%', '%s' and a trailing '%'."
 
 STATUS = ["H1", "H2", "none", "absent", "twice"]
 TAGMENU = [
@@ -79,7 +80,7 @@ def harnesses(tier):
 
 
 PARSED_LINES = [
-    "@p0\t50\t0\t10\t-\t>s1<s2\t25\t2\t12\t9\t10\t60\ttp:A:S\tNM:i:-1\tcg:Z:5=1X4=\n",
+    "@p0\t50\t0\t10\t-\t>s1<s2\t25\t2\t12\t9\t10\t60\ttp:A:S\tNM:i:-1\tcg:Z:5=1X4=\tco:Z:ident=97%%;cov=100%s %d%\n",
     "p1 trailing words\t50\t0\t10\t+\tchr1\t30\t0\t10\t10\t10\t0\ttp:A:P\tzd:Z:a b:c\n",
     "p2\t50\t3\t13\t+\t<chr1:10-25\t15\t1\t11\t8\t10\t60\ttp:A:I\tcg:Z:4=2D4=\tdv:f:-.5e-3\n",
 ]
@@ -160,6 +161,7 @@ def tsv_lines(params, ps_nums):
     """TSV (readname, haplotype, phaseset, chromosome) for the reads of the harness"""
     lines = ["#readname\thaplotype\tphaseset\tchromosome\n"]
     exp = {}
+    absent = []
     st = params["status"]
     for i, s in enumerate(st):
         name = "r0" if (params.get("same_read") and i > 0) else "r%d" % i
@@ -167,7 +169,8 @@ def tsv_lines(params, ps_nums):
             # a second listing of an already listed read: the first one wins
             pass
         if s == "absent":
-            exp.setdefault(name, ("none", "none", None))
+            # this record adds no line to the TSV; the read may still be listed through another record of the same read
+            absent.append(name)
             continue
         hap = s if s in ("H1", "H2", "none") else "H2"
         psn = ps_nums[i]
@@ -179,6 +182,8 @@ def tsv_lines(params, ps_nums):
             exp.setdefault(name, (hap, "chr%d" % (i + 1), psn))
             if s == "twice":
                 lines.append(rt.vp_fmt_("%s\tH1\t%d\tchrX\n", (name, psn + 1)))
+    for name in absent:
+        exp.setdefault(name, ("none", "none", None))
     return lines, exp
 
 
@@ -305,6 +310,10 @@ def replay(params, model, wd):
         open(tp, "w").write("".join(tsv))
         out = os.path.join(wd, "o.gaf")
         try:
+            # the same history as the harness: an earlier call in the same process with a TSV that phases every read
+            tp0 = os.path.join(wd, "h0.tsv")
+            open(tp0, "w", encoding="utf-8").write("@p0\tH2\t5\tchrX\np1\tH2\t5\tchrX\n%s\tH2\t5\tchrX\n" % names[2])
+            P.run(gaf, tp0, os.path.join(wd, "o0.gaf"))
             P.run(gaf, tp, out)
         except BaseException as e:  # noqa
             return {"reproduced": True, "key": "C20:parsed:exception", "what": repr(e)}
